@@ -2,15 +2,19 @@
 # Must-fail corpus: applies each mutant (a property-breaking edit that still
 # compiles) to /repo's working tree, runs the property's quick check, expects
 # exit 1 with a VIOLATION line, and reverts the tree. Usage: run.sh [pattern]
+# Env REPO (optional): the repository copy to mutate (default /repo); with a
+# scratch clone several shards can run side by side and /repo stays untouched.
 cd "$(dirname "$0")/.."
 pat="${1:-}"
+REPO="${REPO:-/repo}"
+export GOVC_REPO="$REPO"
 fail=0
 for p in selftest/mutants/*${pat}*.patch; do
   id=$(basename "$p" | cut -d- -f1)
-  if ! git -C /repo apply --check "$PWD/$p" 2>/dev/null; then echo "SKIP  $p (does not apply)"; continue; fi
-  git -C /repo apply "$PWD/$p"
+  if ! git -C "$REPO" apply --check "$PWD/$p" 2>/dev/null; then echo "SKIP  $p (does not apply)"; continue; fi
+  git -C "$REPO" apply "$PWD/$p"
   out=$(GOVC_EVIDENCE_DIR=/verif/out/selftest-evidence ./check.sh "$id" quick 2>&1); rc=$?
-  git -C /repo apply -R "$PWD/$p"
+  git -C "$REPO" apply -R "$PWD/$p"
   if [ $rc -eq 1 ] && echo "$out" | grep -q "^VIOLATION property=$id"; then
     echo "CAUGHT $(basename $p): $(echo "$out" | grep -c '^VIOLATION') violation line(s): $(echo "$out" | grep '^VIOLATION' | head -2 | sed 's/.*obligation=//' | tr '\n' ';')"
   else
